@@ -36,11 +36,7 @@ def lowerAscii (c : Nat) : Nat := if 65 ≤ c ∧ c ≤ 90 then c + 32 else c
 
 /-- `_Py_parse_inf_or_nan` + "consumed everything": [+-]? (inf | infinity | nan), case-insensitive -/
 def isInfNan (u : Str) : Bool :=
-  let b := match u with
-    | 43 :: r => r
-    | 45 :: r => r
-    | r => r
-  let l := b.map lowerAscii
+  let l := (stripSign u).map lowerAscii
   l == [105, 110, 102] || l == [105, 110, 102, 105, 110, 105, 116, 121] || l == [110, 97, 110]
 
 /-- outcome of parsing a decimal literal: the digit values of the mantissa (integer and fraction
@@ -54,10 +50,7 @@ structure DecLit where
 `[+-]? (digits [. digits*] | . digits) ([eE] [+-]? digits)?`; an exponent marker without digits is
 not consumed and therefore left over (ValueError). -/
 def parseDecimal (u : Str) : Option DecLit :=
-  let u1 := match u with
-    | 43 :: r => r
-    | 45 :: r => r
-    | r => r
+  let u1 := stripSign u
   let ip := u1.takeWhile isAsciiDigit
   let r1 := u1.dropWhile isAsciiDigit
   let (fp, r2) := match r1 with
@@ -71,10 +64,7 @@ def parseDecimal (u : Str) : Option DecLit :=
     | c :: r3 =>
       if c = 101 ∨ c = 69 then
         let eneg := r3.head? == some 45
-        let r4 := match r3 with
-          | 43 :: r => r
-          | 45 :: r => r
-          | r => r
+        let r4 := stripSign r3
         let ep := r4.takeWhile isAsciiDigit
         let r5 := r4.dropWhile isAsciiDigit
         if ep.isEmpty then none
